@@ -297,4 +297,3 @@ package promapi
 //@   ensures hit ==> runs == 0 && sets == 0
 //@   ensures old(prom.cache) != nil ==> asked
 //@   ensures result.err != nil ==> sets == 0
-//@   ensures runs == 1 && result.err == nil ==> sets == 1 || prom.cache == nil
